@@ -19,6 +19,8 @@ enum End {
     StopAndRecord,
     StopAndDiscard,
     Drop,
+    /// dropped by the unwinding of a (caught) panic
+    DropInUnwind,
 }
 
 /// Ends a timer; returns the duration if the API returns one.
@@ -44,6 +46,14 @@ fn end_timer(t: T, how: End) -> Option<f64> {
             drop(t);
             None
         }
+        (t, End::DropInUnwind) => {
+            let r = std::panic::catch_unwind(std::panic::AssertUnwindSafe(move || {
+                let _held = t;
+                std::panic::resume_unwind(Box::new("c18: deliberate unwind"));
+            }));
+            let _ = r;
+            None
+        }
     }
 }
 
@@ -53,8 +63,8 @@ impl Property for C18 {
     }
     fn rule(&self) -> &'static str {
         "case = history of 3-25 operations over one Histogram and up to 2 LocalHistograms: start a shared / local timer (<=5 alive), \
-         end a chosen live timer by observe_duration / stop_and_record / stop_and_discard / drop, on this thread or after moving it \
-         to a freshly spawned thread (joined at once), observe_closure_duration on the shared or a local histogram, local flush / \
+         end a chosen live timer by observe_duration / stop_and_record / stop_and_discard / drop (plain, or by the unwinding of a caught panic), on this thread or after moving \
+         it to a freshly spawned thread (joined at once), observe_closure_duration on the shared or a local histogram, local flush / \
          clear / drop, create local. Oracle: count model (shared count and every local's pending count after every operation; +1 \
          exactly for record/drop, +0 for discard; a local timer's observation reaches the shared histogram when the timer dies), \
          returned durations finite and >= 0, and the shared sample sum grows by exactly the returned duration. Non-trivial: >=3 \
@@ -116,7 +126,7 @@ impl Property for C18 {
                             out_of_order = true;
                         }
                         let (_, t) = timers.remove(k);
-                        let how = *src.pick(&[End::StopAndRecord, End::Drop, End::StopAndDiscard, End::ObserveDuration]);
+                        let how = *src.pick(&[End::StopAndRecord, End::Drop, End::StopAndDiscard, End::ObserveDuration, End::DropInUnwind]);
                         let threaded = src.chance(90);
                         returned = if threaded {
                             cross += 1;
